@@ -13,6 +13,7 @@ UNITS_LOCAL = {"C19": [
                "notifyObservers k, wasNotified i, destroy observer i, destroy observable k, create a new observable in slot k; reference model = one pending flag per observer (set by its observable's notify, "
                "cleared by its own poll, false for ever once its observable is destroyed); every poll result is compared; teardown of every history destroys the remaining observables first, polls every "
                "remaining observer once more (must be false) and destroys it (observers-first order is part of the alphabet). "
+               "obsx: the obs histories of 1..5 (thorough 1..6) operations again with every second operation executed on a thread of its own, started and joined inside the step (who notifies and who polls are different threads, nothing overlaps). "
                "ts: every history of 1..6 (thorough 1..7) enabled operations over 3 heap TimeStamp slots on one thread, alphabet of 39: construct, renew, copy-/move-construct i from j, copy-/move-assign i=j (incl. i=i), destroy; "
                "each constructed/renewed value must exceed every value obtained earlier in the history, a copy/move target must read its source's value, all other live stamps must be unchanged. "
                "Every history is replayed on fresh objects inside a forked ASan+UBSan shard. "
